@@ -285,13 +285,13 @@ def run(R, tier):
                         {"family": fam, "params": p, "error": "%s: %s" % (type(ex).__name__, ex)})
             continue
         recs.append((cid, fam, p, A, B))
-        lines.append((cid, "(" + emit(cid, fam, p, A, B) + ")"))
+        lines.append((cid, "(" + emit(0, fam, p, A, B).replace(" 0 ", " @ID@ ", 1) + ")"))
     # canary: a correct FirstDerivative case with one entry of the forward matrix moved by 1/2
     cfam, cp = "FirstDerivative", dict(dims=[5], axis=0, sampling=1.0, kind="centered", edge=True, order=3)
     cA, cB = matrices(build(cfam, cp))
     cA = cA.copy(); cA[2, 3] += 0.5
     CANARY = len(cfgs) + 1
-    lines.append((CANARY, "(" + emit(CANARY, cfam, cp, cA, cB) + ")"))
+    lines.append((CANARY, "(" + emit(0, cfam, cp, cA, cB).replace(" 0 ", " @ID@ ", 1) + ")"))
     t_py = time.time() - t0
     d = common.workdir("C07a")
     # balance shards by literal size
@@ -300,20 +300,21 @@ def run(R, tier):
     sizes = [0] * nsh
     for cid, l in sorted(lines, key=lambda t: -len(t[1])):
         k = sizes.index(min(sizes))
-        shards[k].append(l); sizes[k] += len(l) + 2000
+        shards[k].append((cid, l)); sizes[k] += len(l) + 2000
     names = []
     for k, sh in enumerate(shards):
         nm = "c07a_%d" % k
         with open(os.path.join(d, nm + ".v"), "w") as f:
-            f.write(HEADER + "Eval vm_compute in (runall [\n " + ";\n ".join(sh) + "]).\n")
+            # ids are local to the shard (small nat literals); (shard, local id) -> configuration id
+            f.write(HEADER + "Eval vm_compute in (runall [\n " + ";\n ".join(l.replace("@ID@", str(j), 1) for j, (_, l) in enumerate(sh)) + "]).\n")
         names.append(nm)
     t1 = time.time()
     outs = common.run_coq_files(d, names)
     t_coq = time.time() - t1
     fails = {}
-    for nm in names:
-        for cid, zs in parse_z(outs[nm]):
-            fails.setdefault(cid, []).append(zs)
+    for k, nm in enumerate(names):
+        for lid, zs in parse_z(outs[nm]):
+            fails.setdefault(shards[k][lid][0], []).append(zs)
     if CANARY not in fails or not any(z[0] == 1 and z[1:3] == [2, 3] for z in fails[CANARY]):
         raise SystemExit("C07a: canary case was not reported as failing - pipeline broken")
     fails.pop(CANARY)
